@@ -31,6 +31,13 @@ def work(case):
     if edits is None:
         edits = editgen.gen_mixed_batch(rng, case["doc"], texts, 3 if case.get("stream") == "bridges" else rng.randint(1, 3),
                                         comment_p=0.1, conflicts=True)
+        if case.get("stream") == "redlined" and rng.random() < 0.4:
+            # an edit on text inside another reviewer's pending insertion (replace / delete, also the whole insertion)
+            x = editgen.gen_whole_ins_edit(rng, case["doc"], texts) if rng.random() < 0.6 else \
+                editgen.gen_batch(rng, case["doc"], texts, 1, ["delete", "replace"], states=("ins",))
+            for e in x:
+                e["locatable"] = True
+            edits += [e for e in x if not any(e["pi"] == y.get("pi") for y in edits)]
         if case.get("stream") == "redlined" and rng.random() < 0.5:
             # a target that crosses the boundary of another reviewer's pending insertion
             edits += [e for e in editgen.gen_cross_ins_any(rng, case["doc"], texts) if not any(e["pi"] == y.get("pi") for y in edits)]
